@@ -16,6 +16,7 @@
 // --- the repository's own accounting seam: Memory.hpp calls MemoryRecord::AddAllocation /
 // RemoveAllocation when QENTEM_Q_TEST_H is defined. We define the macro and our own MemoryRecord
 // (shadowing QTest.hpp, which is never included).
+#ifndef QSIM_OPT
 #define QENTEM_Q_TEST_H
 extern "C" void qsim_memrec_add(void *);
 extern "C" void qsim_memrec_remove(void *);
@@ -29,6 +30,9 @@ struct MemoryRecord {
     }
 };
 } // namespace Qentem
+#endif
+// (optimiser twins compile the library exactly as a release build does: without the accounting seam, whose opaque
+// calls would stand between the stores and loads the optimiser is otherwise free to reorder or drop)
 
 #include "Array.hpp"
 #include "HArray.hpp"
@@ -52,6 +56,18 @@ struct MemoryRecord {
 
 QH_BEGIN
 namespace qw {
+
+// A caller's thin wrapper around one library call: a small optimisation unit of its own, as in user code. Inside the
+// worlds' large interpreters the optimiser gives up early; in a unit this small it uses everything it may assume
+// (the optimiser twins found GCC -O3 dropping stores made through another union member's type only here).
+template <typename T, typename A>
+__attribute__((noinline, flatten)) void assign_in_own_unit(T &target, A &&arg) {
+    target = static_cast<A &&>(arg);
+}
+template <typename T, typename A>
+__attribute__((noinline, flatten)) void append_in_own_unit(T &target, A &&arg) {
+    target += static_cast<A &&>(arg);
+}
 
 using qsim::Op;
 using qsim::Plan;
